@@ -371,6 +371,19 @@ def FT.erase (t : FT) (id : Nat) (pf : PF) : Option FT :=
   | [] => none
   | (k, v) :: _ => some { t with keys := modBucket t.keys k v (swapPop id) }
 
+/-- `FasterTrie::insert` on any key, with the source's handling of an empty one (`AITB.Gen.C20.ftEmptyKeyGuard`):
+    outer `none` = undefined behaviour (`pf.first[0]` of an empty vector), inner `none` = throws `invalid_argument` -/
+def FT.insertG (guard : Bool) (t : FT) (pf : PF) : Option (Option (FT × Nat)) :=
+  match pf with
+  | [] => if guard then some none else none
+  | _ :: _ => (t.insert pf).map some
+
+/-- `FasterTrie::erase(id, pf)` likewise: with the guard an empty key is a no-op -/
+def FT.eraseG (guard : Bool) (t : FT) (id : Nat) (pf : PF) : Option FT :=
+  match pf with
+  | [] => if guard then some t else none
+  | _ :: _ => t.erase id pf
+
 /-- body of `matchPartial`'s loop over the keys after the first -/
 def matchGo (f : List Nat) : PF → Bool
   | [] => true
